@@ -154,6 +154,27 @@ def run(ck):
                                      "U sigma_%s U^dagger = %s, expected diag(+1, -1): the matrix does not rotate into the %s basis" % (k.lower(), rot, k))
                 except ValueError:
                     ck.undecided("C04.R1", "%s algebra" % k, cd.site(), "entries mix different powers of sqrt(2)")
+    with ck.guard("C04.R1", "create_dict twice", cd.site()):
+        # every dictionary handed out has its own tensors: editing one (users overwrite and conjugate entries in place) must not
+        # change what the next create_dict() - and with it every state built afterwards - rotates with
+        def th2(it):
+            a = it.call_function(VFunc(cd), [], {}, None)
+            b = it.call_function(VFunc(cd), [], {}, None)
+            return a, b
+
+        for p in returning(paths_of(prog, th2), "create_dict twice"):
+            a, b = p.value
+            ia, ib = (a.obj.items or {}) if isinstance(a, VDict) else {}, (b.obj.items or {}) if isinstance(b, VDict) else {}
+            ck.check(a.obj is not b.obj, "C04.R1", "each call returns its own dictionary", cd.site(), "two create_dict() calls return the same dictionary object")
+            for k in sorted(set(ia) & set(ib)):
+                va, vb = ia[k], ib[k]
+                if not (isinstance(va, VTens) and isinstance(vb, VTens)):
+                    continue
+                shared = bool(va.obj.roots() & vb.obj.roots())
+                glob = [o.origin for o in (va.obj.roots() | vb.obj.roots()) if str(o.origin).startswith("global:")]
+                ck.check(not shared and not glob, "C04.R1", "%s: each dictionary has its own tensor" % k, cd.site(),
+                         "the %s entry of two dictionaries from create_dict() is the same tensor%s: an in-place edit of one dictionary changes every other dictionary and every state built later"
+                         % (k, " (module-level %s)" % glob[0] if glob else ""), key="C04.R1|shared-default|%s" % k)
     with ck.guard("C04.R1", "create_dict(**user)", cd.site()):
         def thu(it):
             x = api.cx_t(it, "userX", (2, 2))
@@ -325,6 +346,31 @@ def run(ck):
             ck.check(True if ok else (False if swapped else None), "C04.R3", "unitary indexed [site, :, measured outcome, summed input] [%s]" % _c(p), rbs.site(),
                      "the unitary's row index comes from %s and its column index from %s: rows must be the measured outcome (the given states) and columns the summed-over inputs (the generated subspace)" % (
                          "the generated subspace" if gen_o else "the states", "the states" if not gen_i else "the generated subspace"))
+            # the factor is the product over the rotated sites of the *complex* gathered entry re + i im (user-added unitaries are complex
+            # whatever letters the string contains)
+            G = cand[0]
+            top = t.single_atom()
+            if isinstance(top, T.App) and top.op == "prod" and hasattr(top.args[0], "all_atoms"):
+                def comp(a):
+                    if isinstance(a, T.App) and a.op == "index" and hasattr(a.args[0], "single_atom") and a.args[0].single_atom() == G and a.args[1] and a.args[1][-1] in (0, 1):
+                        return T.sym("G_re" if a.args[1][-1] == 0 else "G_im")
+                    return None
+
+                inner = T.subst(top.args[0], comp)
+                wantf = T.sym("G_re") + T.sym("G_im") * T.sym("lit:1j")
+                if inner == wantf:
+                    ck.ok("C04.R3", "factor = prod over rotated sites of (re + i im) of the gathered entries [%s]" % _c(p), rbs.site())
+                else:
+                    opaque = [c for c in p.conds if len(c) > 3 and getattr(c[3], "term", None) is None and getattr(c[3], "tag", None) != "in"]  # a membership test on the basis string says nothing about the unitaries' values
+                    drops = "G_im" not in inner.syms() or "G_re" not in inner.syms()
+                    if drops and not opaque:
+                        ck.violation("C04.R3", "factor = prod over rotated sites of (re + i im) of the gathered entries [%s]" % _c(p), rbs.site(),
+                                     "on this path the unitary factor is prod(%s): the %s part of the selected unitary entries is dropped (a user-added unitary is complex whatever letters the basis string contains)"
+                                     % (str(inner)[:80], "imaginary" if "G_im" not in inner.syms() else "real"), key="C04.R3|factor")
+                    else:
+                        ck.undecided("C04.R3", "factor = prod over rotated sites of (re + i im) of the gathered entries [%s]" % _c(p), rbs.site(), "unitary factor %s not recognised" % (str(inner)[:120],))
+            else:
+                ck.undecided("C04.R3", "factor = prod over rotated sites of (re + i im) of the gathered entries [%s]" % _c(p), rbs.site(), "the unitary factor is not a product over the rotated sites")
             vt = v.term if isinstance(v, VTens) else None
             at = vt.single_atom() if vt is not None else None
             okv = at is not None and isinstance(at, T.App) and at.op == "upd" and "states" in at.args[0].syms() and at.args[1][0] == "ellipsis" and any(isinstance(a, T.App) and a.op == "arange" for a in at.args[2].all_atoms())
@@ -450,7 +496,7 @@ def _kron_instance(ck, prog, km, ns):
         return x, it.call_function(VFunc(km), [ms, x], {}, None)
 
     with ck.guard("C04.R4", inst, site):
-        paths = paths_of(prog, thk, sticky=True, max_paths=20)
+        paths = paths_of(prog, thk, sticky="term", max_paths=100)
         rets = [p for p in paths if p.outcome == "return"]
         ck.check(len(rets) >= 1 and all(p.outcome == "return" for p in paths), "C04.R4", inst + ":accepted", site,
                  "a state of length 2^%d is refused or fails with %d 2x2 matrices: %s" % (ns, ns, [str(p.value)[:80] for p in paths if p.outcome != "return"][:1]))
@@ -465,7 +511,19 @@ def _kron_instance(ck, prog, km, ns):
                 base, spec, val = at.args
                 steps.append((base, spec, val))
                 t = base
-            if t is None or t != x.term or not steps:
+            # sites the path has established to be the identity (real part equal to eye, no non-zero imaginary entry): an
+            # implementation may leave those out.  Found from the values of the branch conditions, not from their spelling.
+            def _is_re(key, k):
+                a_ = key[1].single_atom() if key[0] == "t" and hasattr(key[1], "single_atom") else None
+                return isinstance(a_, T.App) and a_.op == "tensor_equal" and any(hasattr(z, "syms") and z.syms() == {"u%dr" % k} for z in a_.args) and any(hasattr(z, "all_atoms") and any(isinstance(q, T.App) and q.op.endswith("eye") for q in z.all_atoms()) for z in a_.args)
+
+            def _is_im(key, k):
+                a_ = key[1].single_atom() if key[0] == "t" and hasattr(key[1], "single_atom") else None
+                return isinstance(a_, T.App) and a_.op == "any" and hasattr(a_.args[0], "syms") and a_.args[0].syms() == {"u%di" % k}
+
+            assumed_id = {k for k in range(ns) if set(cond_truths(p, lambda key, k=k: _is_re(key, k))) == {True} and set(cond_truths(p, lambda key, k=k: _is_im(key, k))) == {False}}
+            conditioned = {k for k in range(ns) if any(len(c) > 3 and getattr(c[3], "term", None) is not None and c[3].term.syms() & {"u%dr" % k, "u%di" % k} for c in p.conds)}
+            if t is None or t != x.term or (not steps and assumed_id != set(range(ns))):
                 ck.undecided("C04.R4", inst + ":block updates", site, "the result is not a chain of in-place block updates of a copy of the input")
                 continue
             mm = [c for c in p.calls if c[0].endswith("cplx.matmul")]
@@ -507,8 +565,21 @@ def _kron_instance(ck, prog, km, ns):
             got = {k: sorted(sorted(b) for b in v) for k, v in per_site.items()}
             big = {k: blocks(2 ** (ns - 1 - k)) for k in range(ns)}
             little = {k: blocks(2 ** k) for k in range(ns)}
-            if got == big:
-                ck.ok("C04.R4", inst + ":site s acts on the pairs {j, j + 2^(n-1-s)} once each", site, pairs={str(k): v for k, v in got.items()})
+            missing = set(range(ns)) - set(got)
+            tagp = ("" if not p.conds else " [%s]" % _c(p))
+            if missing and all(got[k] == big[k] for k in got):
+                if missing <= assumed_id:
+                    ck.ok("C04.R4", inst + ":site s acts on the pairs {j, j + 2^(n-1-s)} once each (identity sites %s left out)%s" % (sorted(missing), tagp), site)
+                elif missing & conditioned:
+                    ck.undecided("C04.R4", inst + ":sites %s are left out%s" % (sorted(missing), tagp), site, "whether the test that skips these sites establishes that their unitary is the identity was not recognised")
+                else:
+                    ck.violation("C04.R4", inst + ":site s acts on the pairs {j, j + 2^(n-1-s)} once each%s" % tagp, site, "the unitaries of sites %s are never applied" % sorted(missing))
+            elif missing:
+                ck.violation("C04.R4", inst + ":site s acts on the pairs {j, j + 2^(n-1-s)} once each%s" % tagp, site,
+                             "with the sites %s left out, the remaining unitaries act on the index pairs %s; expected %s (a site that is skipped must still advance the stride)"
+                             % (sorted(missing), got, {k: big[k] for k in got}), key="C04.R4|%s|pairs" % inst)
+            elif got == big:
+                ck.ok("C04.R4", inst + ":site s acts on the pairs {j, j + 2^(n-1-s)} once each" + tagp, site, pairs={str(k): v for k, v in got.items()})
             elif got == little and ns > 1:
                 ck.violation("C04.R4", inst + ":site s acts on the pairs {j, j + 2^(n-1-s)} once each", site,
                              "site s acts on pairs at distance 2^s: site 0 is the least significant factor, i.e. the tensor product is taken in reversed site order, contradicting generate_hilbert_space")
